@@ -369,7 +369,7 @@ func ruleFixNotStarted(r *Run, rule string) {
 		if !ok {
 			continue
 		}
-		paths = OwnOnly(paths)
+		paths = fl.OwnOnly(paths)
 		bad := ""
 		n := 0
 		var bpos token.Pos = fn.Decl.Pos()
@@ -1262,6 +1262,9 @@ func ruleNoPanicSites(r *Run, rule string) {
 					continue
 				}
 				seen[last.Pos] = true
+				if last.Depth > 0 {
+					continue // written in a callee whose body was spliced in: judged where it is written
+				}
 				sites++
 				// exempt: the most recent tested result is a storage updater / exponential.New, non-nil branch
 				exempt := false
@@ -1277,7 +1280,7 @@ func ruleNoPanicSites(r *Run, rule string) {
 						}
 					}
 				}
-				if fn.Key == smKey("writeEverything") {
+				if fn.Key == smKey("writeEverything") || last.From == smKey("writeEverything") {
 					exempt = true // default case: unknown object kind (cannot be produced by walk.Plan; C04-R1 checks exhaustiveness)
 				}
 				if exempt {
